@@ -36,17 +36,17 @@ const (
 // PhCase: a valid configuration whose scalar at Site/Key[/Elem] is the literal; the
 // variant replaces it by a placeholder that resolves to the literal's text.
 type PhCase struct {
-	Conf  string `json:"conf"`
-	Site  string `json:"site"`
-	Key   string `json:"key"`
-	Elem  int    `json:"elem"`  // index inside a string list, -1 otherwise
-	Src   string `json:"src"`   // env | property
-	Mode  string `json:"mode"`  // see the p* constants
-	Name  string `json:"name"`  // variable name / property key
-	File  string `json:"file"`  // property file base name (inside the per-process temp dir)
-	From  int    `json:"from"`  // embedded: text[From:To] goes into the variable
-	To    int    `json:"to"`    //
-	Text  string `json:"text"`  // invalid_text: what the variable holds
+	Conf string `json:"conf"`
+	Site string `json:"site"`
+	Key  string `json:"key"`
+	Elem int    `json:"elem"` // index inside a string list, -1 otherwise
+	Src  string `json:"src"`  // env | property
+	Mode string `json:"mode"` // see the p* constants
+	Name string `json:"name"` // variable name / property key
+	File string `json:"file"` // property file base name (inside the per-process temp dir)
+	From int    `json:"from"` // embedded: text[From:To] goes into the variable
+	To   int    `json:"to"`   //
+	Text string `json:"text"` // invalid_text: what the variable holds
 	// Decoy: name of a second variable / property key that IS defined although it is not the one the placeholder
 	// names: it differs from Name only in letter case (environment names are case-sensitive on every OS but windows,
 	// property keys everywhere) or by one appended / removed character. In the must-reject modes it holds the text
@@ -526,5 +526,8 @@ func TestPlaceholders(t *testing.T) {
 		Name: "K", File: "witness.prop", Comp: "pool/pool", Class: cg.CString}, checkPh)
 	witness(t, r, findingUintWrap, PhCase{Conf: witnessConf, Site: "pools/0/ammo", Key: "limit", Elem: -1, Src: "env", Mode: pInvalid,
 		Name: "VERIF_C17_WITNESS_NEG", Text: "-1", Comp: "ammo/uri", Class: cg.CUint}, checkPh)
+	if t.Failed() {
+		return // a failed witness is reported with its own replay file; rapid refuses a failed *testing.T
+	}
 	vf.Check(r, genPh(r), checkPh)
 }
